@@ -119,6 +119,21 @@ def run(facts):
                     res.ok(key, b.loc(bi), how, nontrivial=True)
                 else:
                     res.bad(key, b.loc(bi), "Vec rebuilt with capacity %s over %s: not the allocation's size (freeing it would use the wrong layout)" % (fmt_expr(C)[:80], fmt_expr(B)[:50]))
+                # the length of the rebuilt Vec: the handle's own bytes, counted from the start of the allocation
+                keyl = key.replace("from_raw_parts cap", "from_raw_parts len")
+                Lu = uncast(L)
+                okl, howl = False, ""
+                lbuf, lln = is_extent_formula(Lu)
+                if Lu[0] == "param":
+                    okl, howl = True, "length = the handle's len (bytes moved to the front first, A9)"
+                elif lbuf is not None and lbuf == B and uncast(lln)[0] == "param":
+                    okl, howl = True, "length = (view - buf) + len: up to the end of the handle's view"
+                elif is_call(B, "sub") and Lu[0] == "bin" and Lu[1] == "Add" and B[2][1] in (Lu[2], Lu[3]) and any(uncast(x)[0] == "param" for x in (Lu[2], Lu[3])):
+                    okl, howl = True, "length = len + off for buf = ptr - off"
+                if okl:
+                    res.ok(keyl, b.loc(bi), howl, nontrivial=True)
+                else:
+                    res.bad(keyl, b.loc(bi), "Vec rebuilt with length %s: not the end of the handle's view (bytes outside the view, possibly uninitialised, become contents)" % fmt_expr(Lu)[:80])
     res.floor("extent_sites", n, 9)
     promotable_end(res, facts)
     return res
